@@ -925,7 +925,7 @@ def oracle(ctx, scale):
             n0 += 1
         cases.append(dict(kind="options", seed=rng.getrandbits(31), n0=n0, m=m, touch=touch, paired=rng.random() < 0.5,
                           kramers=kr, degen_thresh=rng.choice([1e-4, 1e-3, 0.05]), k0=rng.choice(K0S), G=rand_G(rng),
-                          run=(it % 3 == 0)))
+                          run=(it % 4 == 0 if ctx.tier == "thorough" else it == 0)))
     for case in cases:
         ctx.count(f"oracle.{case['kind']}")
         with ctx.attempt(f"{case['kind']} case", case):
